@@ -27,6 +27,7 @@ def _design(w, arr):
                      Inst("i", leaf, {"g": Sig("g1")}, kind="array" if arr else "inst", n=2 if arr else 1),
                      Inst("k", cell, {"a": Sig("t"), "b": Sig("g1")}),   # further instances that may come to REFERENCE i's bus port
                      Inst("k2", cell, {"a": Sig("t"), "b": Sig("g1")}),
+                     Inst("k3", cell, {"a": Sig("t"), "b": Sig("g1")}),  # (... reads the port once more when the history is over, if it was referenced before)
                      Inst("p0", Prim("R", dict(r=1)), {"p": Idx(BRef("b1", ("x",)), 0), "n": BRef("nn", ("b", "y"))}),
                      Inst("p1", Prim("R", dict(r=1)), {"p": Idx(BRef("nn", ("b", "x")), 0), "n": BRef("nn", ("z",))})])
     return top
@@ -99,9 +100,14 @@ def _history(ops, w, arr):
         hi.connect("bb", b.expr(m, Bun("pb"), ncs)); final["bb"] = Bun("pb")
     if "bc" not in final:
         hi.connect("bc", b.expr(m, Bun("b1"), ncs)); final["bc"] = Bun("b1")
+    if nref and not arr:
+        # the port is read once more after the whole history (the same reference as the earlier ones, whatever was edited since)
+        m.get("k3").connect("a", hi.a)
+        kfinal["k3"] = PRef("i", "a")
     top.insts[1].conns = final
     top.insts[2].conns = {"a": kfinal["k"], "b": Sig("g1")}
     top.insts[3].conns = {"a": kfinal["k2"], "b": Sig("g1")}
+    top.insts[4].conns = {"a": kfinal.get("k3", Sig("t")), "b": Sig("g1")}
     if nref and isinstance(final["a"], NC):
         return None  # a no-connected port that is also referenced: not a valid final mapping
     return m, top
@@ -141,7 +147,7 @@ _PRE = ["0 <= o0 <= 2 or o0 == 5", "o0 != 5 or (p0 == 0 and c0 == 0)", "0 <= p0 
                 "thorough": {"timeout": 600, "pre": ["c2 <= 1", "arr == False or (c0 <= 3 and c1 <= 3 and c2 <= 1)"], "parts": [(f"p{p}_c{c}_o{o}_q{q}", f"p0 == {p} and c0 == {c} and o1 == {o} and p1 == {q}") for p in (0, 1, 2) for c in range(9) for o in range(6) for q in (0, 1, 2)
                                        if not (p >= 1 and c >= NB) and not (o == 5 and q != 0) and not (o in (3, 4) and q != p)]}},
          sample=(1, 0, 5, 1, 0, 1, 2, 0, 0, 2, False),
-         bounds="histories of 3 operations (+ completion) on the bus port and the two bundle ports (one bundle type: one object may be tied to both) of an Instance (and an InstanceArray with signal/slice/bundle connections); op in {call, setattr, connect, replace, disconnect, a third instance taking a reference to the edited port}; bus-port connectables: 2 signals, 2 bus halves, concatenation, port reference, unnamed / named no-connect, bundle member; bundle-port connectables: internal bundle, bundle port, 2 anonymous bundles, port reference, reference into a nested bundle; w <= 2 (quick tier: w = 2, Instance only, first operation by assignment, third operation's connectable fixed, the second bundle port only in the second operation; thorough: all first operations, arrays, two third connectables)",
+         bounds="histories of 3 operations (+ completion) on the bus port and the two bundle ports (one bundle type: one object may be tied to both) of an Instance (and an InstanceArray with signal/slice/bundle connections); op in {call, setattr, connect, replace, disconnect, a third instance taking a reference to the edited port; a referenced port is read once more when the history is over}; bus-port connectables: 2 signals, 2 bus halves, concatenation, port reference, unnamed / named no-connect, bundle member; bundle-port connectables: internal bundle, bundle port, 2 anonymous bundles, port reference, reference into a nested bundle; w <= 2 (quick tier: w = 2, Instance only, first operation by assignment, third operation's connectable fixed, the second bundle port only in the second operation; thorough: all first operations, arrays, two third connectables)",
          generalises="operation / port / connectable selectors (exhaustive path enumeration); width", outside="histories longer than 3; more than two ports; Pair histories")
 def histories(o0, p0, c0, o1, p1, c1, o2, p2, c2, w, arr):
     P = env.pick
